@@ -84,3 +84,100 @@ def gen_recognizer():
         raise TranslateError("enum Encodings changed: %r" % names)
     out += "end XV.Gen.Recognizer\n"
     return out
+
+
+
+# ------------------------------------------------------------------ C06: ElemStack capacities, reserved names
+def _char_symbols():
+    t = strip_c_comments(src("util/XMLUniDefs.hpp"))
+    syms = {}
+    for m in re.finditer(r"const\s+XMLCh\s+(ch\w+)\s*=\s*(0[xX][0-9a-fA-F]+|\d+)\s*;", t):
+        syms[m.group(1)] = int(m.group(2), 0)
+    if len(syms) < 100:
+        raise TranslateError("XMLUniDefs.hpp: character constants not found")
+    return syms
+
+def _ctor_init(text, cls, field, rel):
+    """the literal in the member initialiser `field(<int>)` of the constructor cls::cls"""
+    m = re.search(r"\b%s::%s\s*\(" % (cls, cls), text)
+    if not m:
+        raise TranslateError("constructor %s::%s not found in %s" % (cls, cls, rel))
+    body_start = text.find("{", m.end())
+    init = text[m.end():body_start]
+    k = re.search(r"\b%s\s*\(\s*(\d+)\s*\)" % re.escape(field), init)
+    if not k:
+        raise TranslateError("%s::%s: initialiser %s(<n>) not found in %s" % (cls, cls, field, rel))
+    return int(k.group(1))
+
+def _func_body(text, qual, rel):
+    m = re.search(r"\b%s\s*\([^)]*\)\s*(?:const\s*)?\{" % re.escape(qual), text)
+    if not m:
+        raise TranslateError("function %s not found in %s" % (qual, rel))
+    i = m.end(); depth = 1; j = i
+    while depth and j < len(text):
+        if text[j] == "{": depth += 1
+        elif text[j] == "}": depth -= 1
+        j += 1
+    return text[i:j - 1]
+
+def _decimal_ratio(tok, what):
+    m = re.fullmatch(r"(\d+)\.(\d+)", tok)
+    if not m:
+        raise TranslateError("%s: growth factor %r is not a decimal literal" % (what, tok))
+    den = 10 ** len(m.group(2))
+    return int(m.group(1)) * den + int(m.group(2)), den
+
+def _growth(body, var, what, with_init):
+    """`(XMLSize_t)(<var> * F)` and, if with_init, `<var> ? ... : N`"""
+    m = re.search(r"\(\s*XMLSize_t\s*\)\s*\(\s*%s\s*\*\s*([0-9.]+)\s*\)" % re.escape(var), body)
+    if not m:
+        raise TranslateError("%s: growth expression (XMLSize_t)(%s * F) not found" % (what, var))
+    num, den = _decimal_ratio(m.group(1), what)
+    init = None
+    if with_init:
+        k = re.search(r"%s\s*\?\s*\(\s*XMLSize_t\s*\)\s*\(\s*%s\s*\*\s*[0-9.]+\s*\)\s*:\s*(\d+)\s*;" % (re.escape(var), re.escape(var)), body)
+        if not k:
+            raise TranslateError("%s: initial capacity `%s ? ... : N` not found" % (what, var))
+        init = int(k.group(1))
+    return num, den, init
+
+@translate.register("ElemStackConsts")
+def gen_elemstack_consts():
+    rel = "internal/ElemStack.cpp"
+    t = strip_c_comments(src(rel))
+    out = HEADER + "namespace XV.Gen.ElemStackConsts\n\n"
+    # ElemStack
+    out += "def esStackInitCap : Nat := %d\n" % _ctor_init(t, "ElemStack", "fStackCapacity", rel)
+    n, d, i = _growth(_func_body(t, "ElemStack::expandMap", rel), "oldCap", "ElemStack::expandMap", True)
+    out += "def esMapInitCap : Nat := %d\ndef esMapGrowNum : Nat := %d\ndef esMapGrowDen : Nat := %d\n" % (i, n, d)
+    n, d, _ = _growth(_func_body(t, "ElemStack::expandStack", rel), "fStackCapacity", "ElemStack::expandStack", False)
+    out += "def esStackGrowNum : Nat := %d\ndef esStackGrowDen : Nat := %d\n" % (n, d)
+    # WFElemStack
+    out += "def wfStackInitCap : Nat := %d\n" % _ctor_init(t, "WFElemStack", "fStackCapacity", rel)
+    out += "def wfMapInitCapCtor : Nat := %d\n" % _ctor_init(t, "WFElemStack", "fMapCapacity", rel)
+    n, d, i = _growth(_func_body(t, "WFElemStack::expandMap", rel), "fMapCapacity", "WFElemStack::expandMap", True)
+    out += "def wfMapInitCap : Nat := %d\ndef wfMapGrowNum : Nat := %d\ndef wfMapGrowDen : Nat := %d\n" % (i, n, d)
+    n, d, _ = _growth(_func_body(t, "WFElemStack::expandStack", rel), "fStackCapacity", "WFElemStack::expandStack", False)
+    out += "def wfStackGrowNum : Nat := %d\ndef wfStackGrowDen : Nat := %d\n" % (n, d)
+    # string pool ids start at 1 (XMLStringPool constructor: fCurId(1)); 0 = "not in the pool"
+    sp = strip_c_comments(src("util/StringPool.cpp"))
+    ids = set(re.findall(r"\bfCurId\s*\(\s*(\d+)\s*\)", sp))
+    if ids != {"1"}:
+        raise TranslateError("util/StringPool.cpp: constructors no longer initialise fCurId(1): %s" % sorted(ids))
+    out += "def poolFirstId : Nat := 1\n"
+    # hash-table duplicate check threshold (XMLScanner::setAttrDupChkRegistry)
+    xs = strip_c_comments(src("internal/XMLScanner.hpp"))
+    m = re.search(r"setAttrDupChkRegistry\s*\([^)]*\)\s*\{\s*if\s*\(\s*attrNumber\s*>\s*(\d+)\s*\)", xs)
+    if not m:
+        raise TranslateError("internal/XMLScanner.hpp: setAttrDupChkRegistry threshold not found")
+    out += "def attrDupHashThreshold : Nat := %d\n\n" % int(m.group(1))
+    # reserved names (XMLUni.cpp), as UTF-16 code unit lists without the terminator
+    syms = _char_symbols()
+    u = src("util/XMLUni.cpp")
+    for nm in ("fgXMLString", "fgXMLNSString", "fgXMLNSColonString", "fgXMLURIName", "fgXMLNSURIName", "fgUnknownURIName"):
+        v = array_init(u, "XMLUni::" + nm, "util/XMLUni.cpp", symbols=syms)
+        if not v or v[-1] != 0 or 0 in v[:-1]:
+            raise TranslateError("XMLUni::%s is not a zero-terminated string" % nm)
+        out += lean_list(nm, v[:-1]) + "\n"
+    out += "end XV.Gen.ElemStackConsts\n"
+    return out
